@@ -130,7 +130,10 @@ void femm::FemmProblem::writeProblemDescription(std::ostream &output) const
     // escape line-breaks
     size_t pos = commentString.find('\n');
     while (pos != std::string::npos)
+    {
         commentString.replace(pos,1,"\\n");
+        pos = commentString.find('\n', pos+2);
+    }
     output.width(12);
     output << "[Comment]" << "  =  \"" << commentString <<"\"\n";
 
